@@ -84,12 +84,22 @@ def norm(t, keep_conv=False):
             inner = norm(t[2][0], keep_conv)
             return ("conv", inner) if keep_conv else inner
         if "FromResidual" in str(path) and len(t[2]) == 1:
-            return ("from_residual", norm(t[2][0], keep_conv))
+            inner = norm(t[2][0], keep_conv)
+            # the residual of a value that was itself built by `?` (an inlined helper's `Err(e)?` re-raised by its caller):
+            # from_residual(err(from_residual(err(Y)))) carries the error of Y, converted once more
+            if inner[0] == "err" and inner[1][0] == "from_residual" and inner[1][1][0] == "err":
+                inner = ("err", ("conv", inner[1][1][1])) if keep_conv else inner[1][1]
+            return ("from_residual", inner)
         return ("call", path, tuple(norm(a, keep_conv) for a in t[2]), t[3])
     if k == "var":
         return ("var", t[1], norm(t[2], keep_conv))
     if k == "phi":
-        return ("phi", tuple(norm(x, keep_conv) for x in t[1]))
+        arms = []
+        for x in t[1]:
+            nx = norm(x, keep_conv)
+            if nx not in arms:
+                arms.append(nx)
+        return arms[0] if len(arms) == 1 else ("phi", tuple(arms))
     if k == "index":
         return ("index", norm(t[1], keep_conv), norm(t[2], keep_conv))
     if k == "binop":
